@@ -290,6 +290,7 @@ type In struct {
 	WantErr   bool     `json:",omitempty"` // the signed text is malformed: after Want reading must fail (as it does for the same text unsigned)
 	Hist      *Hist    `json:",omitempty"` // Case history: one keyring variable passed by the same pointer across several reads
 	Inter     *Inter   `json:",omitempty"` // Case interleave: several readers, operations interleaved
+	Over      *Overlap `json:",omitempty"` // Case overlap: reads overlapping in time (gated input)
 }
 
 const armourPrefix = "-----BEGIN PGP "
@@ -566,6 +567,12 @@ func check(scen string, in In) verdict {
 	}
 	if in.Case == "interleave" {
 		return checkInter(scen, in)
+	}
+	if in.Case == "overlap" {
+		return checkOverlap(scen, in)
+	}
+	if in.Case == "multipacket" {
+		return checkMulti(scen, in)
 	}
 	if !in.Fault.valid(len(in.Orig)) {
 		return verdict{class: "invalid-input"}
@@ -1008,6 +1015,8 @@ func Run(r *mc.Run) {
 	keyringHistories(r, docs[0], K1, K2, []string{"reader", "decoder"})
 	interleavings(r, docs, K1, K2)
 	largeSigned(r, K1, entries)
+	multiPacketArmours(r, docs, K1, K2, entries)
+	overlappingReads(r, docs, K1, K2)
 	subs := subsQuick
 	tamperRings := []ringSpec{{kind: "list", keys: []*key{K1}}}
 	if !r.Quick() {
@@ -1095,6 +1104,14 @@ func Run(r *mc.Run) {
 
 // selfCheck validates the harness' own machinery: canonical-form model vs clearsign.Decode, region finder,
 // and (if installed) gpgv on our assembled documents. Never decides the property.
+func mustRing(in In) *openpgp.EntityList {
+	ring, err := in.ring()
+	if err != nil {
+		return nil
+	}
+	return ring
+}
+
 // referenceSigner: fingerprint of the signer the reference implementation reports for doc with in's keyring ("" and
 // the reason if it rejects).
 func referenceSigner(doc []byte, in In) (string, string) {
